@@ -41,7 +41,7 @@ Lemma str_eqb_refl s : str_eqb s s = true.
 Proof. apply str_eqb_spec. reflexivity. Qed.
 
 Lemma set_base_back t : tbase t = BDef -> set_base (set_base t BDefExpand) BDef = t.
-Proof. destruct t as [b e o]; simpl; intro H; subst; reflexivity. Qed.
+Proof. destruct t as [b e o ns]; simpl; intro H; subst; reflexivity. Qed.
 
 (* ------------------------------------------------------------------ acceptance *)
 
@@ -669,7 +669,7 @@ Qed.
 (* ------------------------------------------------------------------ acceptance keeps the dictionary well formed *)
 
 Lemma hashes_placeholder p :
-  contains ch_hash (base_name (tbase p)) = false -> 1 <= hashes p -> is_placeholder p = true.
+  contains ch_hash (tag_head p) = false -> 1 <= hashes p -> is_placeholder p = true.
 Proof.
   unfold hashes, is_placeholder, short_tag, contains. intros Hb Hh.
   assert (Hc : forall s, 1 <= count ch_hash s -> existsb (N.eqb ch_hash) s = true).
@@ -678,16 +678,16 @@ Proof.
   destruct (text p) as [|c s] eqn:Et.
   - apply Hc in Hh. congruence.
   - rewrite count_app in Hh.
-    assert (count ch_hash (base_name (tbase p)) = 0).
-    { destruct (count ch_hash (base_name (tbase p))) eqn:E0; [reflexivity|].
-      assert (1 <= count ch_hash (base_name (tbase p))) by lia. apply Hc in H. congruence. }
+    assert (count ch_hash (tag_head p) = 0).
+    { destruct (count ch_hash (tag_head p)) eqn:E0; [reflexivity|].
+      assert (1 <= count ch_hash (tag_head p)) by lia. apply Hc in H. congruence. }
     cbn [count] in Hh. change (N.eqb ch_slash ch_hash) with false in Hh. cbn in Hh.
     rewrite (Hc (c :: s)); [apply orb_true_r | cbn [count]; lia].
 Qed.
 
-(* schema short names hold no '#': side condition on the content tags *)
+(* schema short names and namespaces hold no '#': side condition on the content tags *)
 Definition clean_names (l : list tag) : Prop :=
-  Forall (fun t => contains ch_hash (base_name (tbase t)) = false) l.
+  Forall (fun t => contains ch_hash (tag_head t) = false) l.
 
 Lemma check_one_wf D dt g :
   clean_names (group_tags (content_group g)) ->
@@ -922,4 +922,30 @@ Proof.
   - rewrite <- accept_context. apply accept_iff.
   - rewrite check_defs_app. destruct (check_defs D pre) as [Dp ip]. cbn [check_defs fst snd].
     destruct (check_one Dp dt g) as [D1 i1]. cbn [fst snd]. destruct (check_defs D1 post) as [D2 i2]. reflexivity.
+Qed.
+
+(* ------------------------------------------------------------------ namespaces *)
+
+(* the Def <-> Def-expand switch (short_base_tag setter) keeps the library namespace, the
+   extension and the original text; only the printed base name changes *)
+Lemma switch_keeps_namespace t b :
+  tns (set_base t b) = tns t /\ text (set_base t b) = text t /\ torg (set_base t b) = torg t /\
+  tbase (set_base t b) = b /\
+  short_tag (set_base t b) =
+    tns t ++ base_name b ++ match text t with [] => [] | e => ch_slash :: e end.
+Proof.
+  repeat split. unfold short_tag, tag_head, set_base. cbn [text tns tbase].
+  destruct (text t); [rewrite app_nil_r | rewrite app_assoc]; reflexivity.
+Qed.
+
+(* what a Def tag of any namespace is replaced by starts with the same tag printed as
+   <namespace>Def-expand/<extension> *)
+Lemma expand_keeps_namespace D t ch :
+  wf_dict D = true -> expansion D t = Some ch ->
+  exists t' c, ch = T t' :: c /\ tns t' = tns t /\ text t' = text t /\
+               short_tag t' = tns t ++ s_defexpand ++ match text t with [] => [] | e => ch_slash :: e end.
+Proof.
+  intros Hw He. destruct (expansion_shape D t ch Hw He) as (c & -> & _ & _).
+  exists (set_base t BDefExpand), c.
+  destruct (switch_keeps_namespace t BDefExpand) as (H1 & H2 & _ & _ & H5). auto.
 Qed.
